@@ -2,7 +2,7 @@
    Property theorems only. Every theorem is closed by [exact] of a lemma proved elsewhere
    (Res/NameRefProofs.v, Res/RenameProofs.v, Res/C03Facts.v). *)
 From KV Require Import Res.BuildRefs Res.FsFacts Res.CsvFacts Res.NameRefProofs Res.RenameProofs Res.RewriteProofs Res.ProgressProofs Res.BuildProofs Res.C03Facts.
-From KV Require Import Res.Pipeline Res.PipelineRefsProofs.
+From KV Require Import Res.Pipeline Res.PipelineWfProofs Res.PipelineRefsProofs Res.PipelineNamesProofs.
 From KV Require Import Gen.NameRefRules Gen.FieldSpecs Res.NameRefRulesRef.
 
 (* ================= obligations over the tables regenerated from /repo ================= *)
@@ -382,8 +382,8 @@ Print Assumptions C03_pipeline_outputs.
    under the hypotheses of C03_refs_follow_transform_partial on the map just before FixBackReferences
    ([before_refs t = Ok m1]: accumulateTarget of the whole tree, then the hashes), the referrer's EMITTED
    document holds, at the reference field, the metadata.name of the referent's EMITTED document.
-   Partial: the hypotheses are on m1, not yet on the tree (the layering lemma is proved for the rename
-   model only, see C03_refs_follow_build_partial). *)
+   Partial: the hypotheses are on m1; C03_refs_follow_pipeline_tree_partial below derives the global ones
+   from the source tree for well-formed trees. *)
 Theorem C03_refs_follow_pipeline_partial :
   forall nonstr o t outs m1 m2 rules C,
     Pipeline.build nonstr o t = Ok outs ->
@@ -409,6 +409,58 @@ Theorem C03_refs_follow_pipeline_partial :
         get_addr a (strip_node (r_node r')) = Some (Scalar t' s' (get_name (strip_node (r_node b2)))).
 Proof. exact refs_follow_pipeline. Qed.
 Print Assumptions C03_refs_follow_pipeline_partial.
+
+(* ---- tree level: the global hypotheses of C03_refs_follow_pipeline_partial from the SOURCE TREE ----
+   [tree_prov t] is a function of the source tree alone: per accumulated resource, in accumulation order, the
+   name it has in the tree (a document's metadata.name or a generator's name), the renaming directives of the
+   kustomizations on its way (namespace, namePrefix, nameSuffix, in the generated transformer order) and whether it is
+   generated.  [tracked1 p r]: r is well formed and every previous name and the current name of r is a name p may have
+   (had) ([may_be]: what a sub-sequence of the directives makes of the original name, for a generated resource also such
+   a name followed by "-" and a hash) and is non-empty. *)
+Theorem C03_accumulate_names_tracked :
+  forall nonstr t m, tree_wf t -> Pipeline.accumulate nonstr t = Ok m -> Forall2 tracked (tree_prov t) m.
+Proof. exact accumulate_tracked. Qed.
+Print Assumptions C03_accumulate_names_tracked.
+
+Theorem C03_before_refs_tracked :
+  forall nonstr t m1, tree_wf t -> before_refs nonstr t = Ok m1 -> Forall2 tracked1 (tree_prov t) m1.
+Proof. exact before_refs_tracked. Qed.
+Print Assumptions C03_before_refs_tracked.
+
+(* For a well-formed tree (w-pipe's tree_wf: well-formed documents, create-only generators with good names, comma-free
+   directives, no custom label fields, no replicas / images) the views of the map before FixBackReferences exist and,
+   when no OTHER entry of [tree_prov t] may be called like the referent is called in the source or at the end, the
+   referrer's emitted document holds the metadata.name of the referent's emitted document.  The hypotheses
+   [no_empty_prev], "exactly one visible candidate" and the closed pair of C03_refs_follow_pipeline_partial are gone;
+   what is left about the map before FixBackReferences is local to the referrer (field content, [referencable] flags)
+   and to the referent (visible, accepted by the kind / roleRef / namespace sieves).
+   The guard is exactly the complement of the findings: intermediate-name-collision and the rewrite cascades all need
+   another resource that may be called like the referent originally or finally. *)
+Theorem C03_refs_follow_pipeline_tree_partial :
+  forall nonstr o t outs m1 m2 rules,
+    tree_wf t -> Pipeline.build nonstr o t = Ok outs ->
+    before_refs nonstr t = Ok m1 -> pipe_rules = Ok rules -> nameref_transform pipe_cs nonstr rules m1 = Ok m2 ->
+    exists C, mapM (view pipe_cs) m1 = Ok C /\
+    forall i r r' org row fs flags cands j pb b b2 a t0 s,
+      nth_error m1 i = Some r -> nth_error m2 i = Some r' -> org_id pipe_cs r = Ok org ->
+      In row rules -> In fs (nb_referrers row) -> gvk_is_selected (id_gvk org) (fs_gvk fs) = true ->
+      roleref_sieve (make_ctx pipe_cs r (fs_path fs) (nb_gvk row)) b = true ->
+      (has_suffix "roleRef/name" (fs_path fs) = false \/
+       exists g, roleref_gvk (r_node r) = Some g /\ external C (g_group g) /\ external C (g_kind g)) ->
+      referencable pipe_cs m1 r = Ok flags -> mapM (view pipe_cs) (select_by flags m1) = Ok cands ->
+      no_ns_key a -> match a with AKey k :: _ => k <> "metadata" | _ => False end ->
+      reaches (path_splitter (fs_path fs)) a (r_node r) = true ->
+      nth_error (tree_prov t) j = Some pb ->
+      get_addr a (r_node r) = Some (Scalar t0 s (pv_name pb)) -> is_null (Scalar t0 s (pv_name pb)) = false ->
+      nth_error C j = Some b -> nth_error m2 j = Some b2 -> nth_error flags j = Some true ->
+      name_kind_match (make_ctx pipe_cs r (fs_path fs) (nb_gvk row)) (pv_name pb) b = true ->
+      namespace_sieve (make_ctx pipe_cs r (fs_path fs) (nb_gvk row)) b = true ->
+      (forall k p, k <> j -> nth_error (tree_prov t) k = Some p ->
+                   may_be p (pv_name pb) = false /\ may_be p (c_name b) = false) ->
+      exists t' s',
+        get_addr a (strip_node (r_node r')) = Some (Scalar t' s' (get_name (strip_node (r_node b2)))).
+Proof. exact refs_follow_pipeline_tree. Qed.
+Print Assumptions C03_refs_follow_pipeline_tree_partial.
 
 (* ================= what the faithful model refutes (each confirmed on the implementation) ================= *)
 
